@@ -18,14 +18,14 @@ Definition mu_pt (pt : point) : nat :=
   | Done0 _ => 11 | Done1 _ => 9 | Done2 => 8
   | Sp0 _ => 18 | Sp1 _ => 16 | Sp2 _ => 15 | Bg0 _ => 4 | Bg1 _ => 2
   | Job0 _ _ => 14 | Job1 _ _ => 13 | Job2 _ _ => 12
-  | Clear0 => 2 | Has0 => 4 | Has1 => 3 | Has2 => 2 | Isr0 _ => 4 | Isr1 _ => 3 | Isr2 _ => 2
+  | Clear0 => 4 | Clear1 => 2 | Has0 => 4 | Has1 => 3 | Has2 => 2 | Isr0 _ => 4 | Isr1 _ => 3 | Isr2 _ => 2
   | Cur0 => 2 | Qd0 => 2 | Stop0 _ => 2
   | Sj0 _ => 9 | Sj1 _ => 7 | Sj2 _ => 6 | Sj3 => 4 | Sj4 _ => 5 | Sj5 _ => 4 | Sj6 _ => 3
   end.
 Definition mu_op (o : op) : nat :=
   match o with
   | OAdd _ | OInsert _ => 27 | OSpawn _ => 19
-  | OClear => 2 | OStop _ => 2 | OStopJob _ => 9
+  | OClear => 4 | OStop _ => 2 | OStopJob _ => 9
   | OHasJobs => 4 | OIsRunning _ => 4 | OGetCurrent => 2 | OGetQueued => 2
   end.
 Fixpoint mu_ops (ops : list op) : nat := match ops with [] => 0 | o :: r => mu_op o + mu_ops r end.
@@ -43,8 +43,8 @@ Proof. induction k; simpl; unfold mu_pc in *; simpl in *; lia. Qed.
 
 Section Measure.
   Variable bodies : Z -> body.
-  Variable isr_once : bool.
-  Notation code' := (code bodies isr_once).
+  Variable vr : variant.
+  Notation code' := (code bodies vr).
   Notation step' := (step pc code').
 
   Theorem step_decreases : forall c t c', step' c t = Some c' -> mu c' < mu c.
